@@ -11,6 +11,7 @@ import (
 	"testing"
 
 	"connectrpc.com/conformance/internal/verifkit"
+	"github.com/spf13/cobra"
 )
 
 // TestVerifC08Args: every pattern supplied by repeated flags, by @files or
@@ -160,4 +161,48 @@ func TestVerifC08Args(t *testing.T) {
 	rep.Eval(1)
 	rep.Sample(map[string]any{"args": []string{"a", "@file(c,d)", "b"}, "want_set": []string{"a", "b", "c", "d"}})
 	rep.Exhaustive = false
+}
+
+// TestVerifC08FlagBinding: what the command line gives to the four pattern
+// flags arrives, value by value, in the flags struct (the real cobra binding).
+func TestVerifC08FlagBinding(t *testing.T) {
+	rep := verifkit.Begin("C08", "flag-binding", "the real bind() on a cobra command; argv with 0-4 occurrences each of --run/--skip/--known-failing/--known-flaky in '--flag value' and '--flag=value' form, values from a pool incl. commas, quotes, spaces, brackets, backslashes, leading dashes (in = form), empty string; oracle: each flag's slice equals the given values in order; distinct = argv")
+	defer rep.Write()
+	rng := verifkit.Stream("c08bind")
+	pool := []string{"plain", "Suite A/**", "a,b/**", "x, y", "**/comma,in,name", `"quoted"`, `say "hi", ok`, "[bracket]", `back\slash`, "-leading-dash", "", "*/q", "trailing,"}
+	names := []string{runFlagName, skipFlagName, knownFailingFlagName, knownFlakyFlagName}
+	n := verifkit.Scale(600, 20000)
+	for it := 0; it < n; it++ {
+		want := map[string][]string{}
+		var argv []string
+		for k := rng.Intn(9); k > 0; k-- {
+			name := verifkit.Pick(rng, names)
+			val := verifkit.Pick(rng, pool)
+			want[name] = append(want[name], val)
+			if rng.Bool() || strings.HasPrefix(val, "-") {
+				argv = append(argv, "--"+name+"="+val)
+			} else {
+				argv = append(argv, "--"+name, val)
+			}
+		}
+		rep.Eval(1)
+		rep.DistinctKey(argv)
+		fl := &flags{}
+		cmd := &cobra.Command{Use: "connectconformance"}
+		bind(cmd, fl)
+		w := map[string]any{"argv": argv}
+		if err := cmd.Flags().Parse(argv); err != nil {
+			rep.Violation("binding/parse-error", err.Error(), w)
+			continue
+		}
+		got := map[string][]string{runFlagName: fl.runPatterns, skipFlagName: fl.skipPatterns, knownFailingFlagName: fl.knownFailingPatterns, knownFlakyFlagName: fl.knownFlakyPatterns}
+		for _, name := range names {
+			if fmt.Sprintf("%q", got[name]) != fmt.Sprintf("%q", want[name]) && !(len(got[name]) == 0 && len(want[name]) == 0) {
+				w["flag"], w["got"], w["want"] = name, got[name], want[name]
+				rep.Violation("binding/values-altered/"+name, fmt.Sprintf("--%s received %q, the command line gave %q", name, got[name], want[name]), w)
+			}
+		}
+		rep.Count("argv_checked", 1)
+	}
+	rep.Sample(map[string]any{"argv": []string{"--known-flaky", "a,b/**", "--run=x, y"}, "expect": "knownFlaky = [\"a,b/**\"], run = [\"x, y\"]"})
 }
